@@ -213,6 +213,66 @@ func runC09(c *eng.Ctx) {
 	// ---- R8
 	r8 := c.Rule("C09.R8", "D:freshness", "every entry of a binding-link registry (kubernetes, schedule, admission, conversion) is its own link object: the stored pointer is a composite literal allocated for that store", 4)
 	runC09R8(c, r8)
+
+	// ---- R9
+	r9 := c.Rule("C09.R9", "D:provenance", "handleWatchEvent: the object-and-filter-result that is cached and sent with the event has one source, applyFilter run on the object delivered with this notification", 2)
+	if f := r9.NeedFunc(pkgKem + ".(*resourceInformer).handleWatchEvent"); f != nil {
+		info := f.Pkg.TypesInfo
+		applyF, _ := p.Object(pkgKem, "applyFilter").(*types.Func)
+		var resVar *types.Var
+		var call *ast.CallExpr
+		ast.Inspect(f.Decl.Body, func(n ast.Node) bool {
+			if as, ok := n.(*ast.AssignStmt); ok && len(as.Lhs) == 2 && len(as.Rhs) == 1 && applyF != nil && isCallTo(info, as.Rhs[0], applyF) {
+				resVar, _ = eng.SelObj(info, as.Lhs[0]).(*types.Var)
+				call = ast.Unparen(as.Rhs[0]).(*ast.CallExpr)
+			}
+			return true
+		})
+		if resVar == nil || call == nil {
+			r9.Unknown(f.Key+" applyFilter result", f.Decl.Pos(), "no `res, err = applyFilter(...)` found")
+		} else {
+			// every assignment of the result variable (also inside literals) is that call
+			var other ast.Expr
+			for _, e := range eng.AssignedExprs(info, f.Decl.Body, resVar) {
+				if ast.Unparen(e) != ast.Expr(call) {
+					other = e
+				}
+			}
+			pos := call.Pos()
+			if other != nil {
+				pos = other.Pos()
+			}
+			r9.Check(other == nil, f.Key+" single source", pos, "the result variable is assigned by applyFilter only", "the filter result of an event can come from somewhere else than applyFilter on the delivered object (e.g. from the cache): filterResult then describes an earlier state of the object")
+			// the filtered object is the delivered one: the last argument derives from the callback's first parameter
+			okObj := false
+			if len(call.Args) >= 1 {
+				prm := f.Obj.Type().(*types.Signature).Params().At(0)
+				for _, src := range valueSources(info, f.Decl.Body, call.Args[len(call.Args)-1], 4) {
+					src = ast.Unparen(src)
+					if ta, isTA := src.(*ast.TypeAssertExpr); isTA {
+						src = ast.Unparen(ta.X)
+					}
+					if sel, isSel := src.(*ast.SelectorExpr); isSel {
+						src = ast.Unparen(sel.X) // staleObj.Obj
+					}
+					okObj = false
+					for _, s2 := range valueSources(info, f.Decl.Body, src, 4) {
+						s2 = ast.Unparen(s2)
+						if ta, isTA := s2.(*ast.TypeAssertExpr); isTA {
+							s2 = ast.Unparen(ta.X)
+						}
+						if eng.SelObj(info, s2) == types.Object(prm) {
+							okObj = true
+						}
+					}
+					if !okObj {
+						break
+					}
+				}
+			}
+			r9.Check(okObj, f.Key+" filtered object", call.Pos(), "applyFilter(..., obj) with obj taken from the notification", "applyFilter is not run on the object delivered with the notification")
+		}
+	}
 }
 
 // runC09R8: the controllers keep `map[key]*...Link` registries from which the binding context of an event is filled
